@@ -247,6 +247,8 @@ def gen_relative_pose(rng, entry_a, spec_b, cfg):
             u = np.zeros(3)
             u[rng.randrange(3)] = rng.choice([-1.0, 1.0])
         f = rng.choice([0.0, 0.2, 0.5, 0.9, 1.0, 1.0, 1.05, 1.5, 3.0, 10.0])
+        if rng.chance(0.15):  # hair's-breadth gap / overlap (exact for spheres, whose extent is the radius)
+            f = 1.0 + rng.choice([-1.0, 1.0]) * rng.logu(1e-13, 1e-3)
         T[:3, 3] = pa + u * (ra + rb) * f
     T[:3, 3] = np.clip(T[:3, 3], -570.0, 570.0)
     return (T + 0.0).tolist()
